@@ -7,7 +7,7 @@ from sim.seams import Env
 PROPERTY = "C22"
 LEVEL = "exploration"
 SCENARIOS = {"fifo": 3, "anyorder": 2, "foreign": 1}
-TIERS = {"quick": {"runs": 8000, "chunk": 30}, "thorough": {"runs": 300000, "chunk": 150}}
+TIERS = {"quick": {"runs": 8000, "chunk": 30}, "thorough": {"runs": 50000000, "wall_s": 600, "chunk": 150, "recheck": 16}}
 RULE = ("one run = the real EtherXDP dispatcher byte code (generated and attached through "
         "FastEtherCat.connect) plus 0-2 marker group programs registered through "
         "FastEtherCat.register_sync_group, executed by the eBPF interpreter; a seeded "
